@@ -108,12 +108,12 @@ def completeOptionNames (s : CS) (pfx m : Bytes) (short : Bool) : List (Bytes ×
   let longHits := longEntries.filter fun (n, r) => hasPrefix n m && !(s.P.opt r).hidden
   let results := longHits.map fun (n, r) => (B "--" ++ n, (s.P.opt r).desc)
   if !short then results else
-  let repeats := longHits.map fun (_, r) => (s.P.opt r).short
+  let repeats := longHits.map fun (_, r) => r   -- (after the D28 fix: the OPTIONS offered by a long name)
   let shortNames := (refs.filter fun r => (s.P.opt r).short ≠ 0).map fun r => (s.P.opt r).short
   let shortDistinct := shortNames.foldl (fun acc x => if acc.contains x then acc else acc ++ [x]) []
   let shortEntries := shortDistinct.filterMap fun x => (s.P.lookupShort s.cmd x).map fun r => (x, r)
   results ++ (shortEntries.filter fun (x, r) =>
-      !repeats.contains x && hasPrefix (encodeRune x) m && !(s.P.opt r).hidden).map fun (x, r) =>
+      !repeats.contains r && hasPrefix (encodeRune x) m && !(s.P.opt r).hidden).map fun (x, r) =>
     (B "-" ++ encodeRune x, (s.P.opt r).desc)
 
 /-- `completeCommands(s, match)` -/
